@@ -31,6 +31,14 @@ Fixpoint brk_stmt (f : flag) (k : nat) (st : stmt) : block * nat * bool :=
       if used then
         (BCons (SSet g false) (one (SWhile (CAndNot g c) body' (guard_if_present g orelse'))), k2, uo)
       else (one (SWhile c body' orelse'), k2, uo)
+  | STry body hs orelse final =>     (* generic_visit: fields in the order body, handlers, orelse, finalbody *)
+      let '(body', k1, u1) := brk_block f k body in
+      let '(hs', k2, u2) := brk_blocks f k1 hs in
+      let '(orelse', k3, u3) := brk_block f k2 orelse in
+      let '(final', k4, u4) := brk_block f k3 final in
+      (one (STry body' hs' orelse' final'), k4, u1 || u2 || u3 || u4)
+  | SWith l body =>
+      let '(body', k1, u1) := brk_block f k body in (one (SWith l body'), k1, u1)
   | _ => (one st, k, false)
   end
 with brk_block (f : flag) (k : nat) (b : block) : block * nat * bool :=
@@ -40,6 +48,14 @@ with brk_block (f : flag) (k : nat) (b : block) : block * nat * bool :=
       let '(st', k1, u1) := brk_stmt f k st in
       let '(r', k2, u2) := brk_block f k1 r in
       (bapp st' r', k2, u1 || u2)
+  end
+with brk_blocks (f : flag) (k : nat) (h : blocks) : blocks * nat * bool :=
+  match h with
+  | HNil => (HNil, k, false)
+  | HCons b r =>
+      let '(b', k1, u1) := brk_block f k b in
+      let '(r', k2, u2) := brk_blocks f k1 r in
+      (HCons b' r', k2, u1 || u2)
   end.
 
 (* ---- continue_statements.ContinueCanonicalizationTransformer -------------- *)
@@ -47,26 +63,134 @@ with brk_block (f : flag) (k : nat) (b : block) : block * nat * bool :=
    hit) where hit = a continue of the enclosing loop was rewritten inside it (create_guard_next).
    For a block, `cur` says whether its first statement must be guarded (create_guard_current): once a
    guard is created the rest of the block moves inside it. *)
-Fixpoint cont_stmt (c : flag) (k : nat) (st : stmt) : block * nat * bool :=
+Fixpoint cont_stmt (c : flag) (k : nat) (u : bool) (st : stmt) : block * nat * bool :=
+  (* u: a continue of the enclosing loop has already been rewritten (state[_Continue].used) *)
   match st with
   | SContinue => (one (SSet c true), k, true)
   | SIf t b1 b2 =>
-      let '(b1', k1, h1) := cont_block c k false b1 in
-      let '(b2', k2, h2) := cont_block c k1 false b2 in
+      let '(b1', k1, h1) := cont_block c k u false b1 in
+      let '(b2', k2, h2) := cont_block c k1 (u || h1) false b2 in
       (one (SIf t b1' b2'), k2, h1 || h2)
   | SWhile t body orelse =>
       let g := cflag k in
-      let '(body', k1, used) := cont_block g (S k) false body in
-      let '(orelse', k2, ho) := cont_block c k1 false orelse in   (* a continue in the else clause belongs to the enclosing loop *)
+      let '(body', k1, used) := cont_block g (S k) false false body in
+      let '(orelse', k2, ho) := cont_block c k1 u false orelse in   (* a continue in the else clause belongs to the enclosing loop *)
       (one (SWhile t (if used then BCons (SSet g false) body' else body') orelse'), k2, ho)
+  | STry body hs orelse final =>     (* visit_Try: body, orelse, finalbody, handlers (in that order) *)
+      let '(body', k1, h1) := cont_block c k u false body in
+      let '(orelse', k2, h2) := cont_block c k1 (u || h1) false orelse in
+      (* the else clause is skipped once a continue (or lowered break) seen so far in this loop became a flag *)
+      let orelse'' := if negb (is_nil orelse') && (u || h1) then one (SIf (CNot c) orelse' BNil) else orelse' in
+      let '(final', k3, h3) := cont_block c k2 (u || h1 || h2) false final in
+      let '(hs', k4, h4) := cont_blocks c k3 (u || h1 || h2 || h3) hs in
+      (one (STry body' hs' orelse'' final'), k4, h1 || h2 || h3 || h4)
+  | SWith l body =>
+      let '(body', k1, h1) := cont_block c k u false body in (one (SWith l body'), k1, h1)
   | _ => (one st, k, false)
   end
-with cont_block (c : flag) (k : nat) (cur : bool) (b : block) : block * nat * bool :=
+with cont_block (c : flag) (k : nat) (u : bool) (cur : bool) (b : block) : block * nat * bool :=
   match b with
   | BNil => (BNil, k, false)
   | BCons st r =>
-      let '(st', k1, h1) := cont_stmt c k st in
-      let '(r', k2, h2) := cont_block c k1 h1 r in
+      let '(st', k1, h1) := cont_stmt c k u st in
+      let '(r', k2, h2) := cont_block c k1 (u || h1) h1 r in
       let all := bapp st' r' in
       (if cur then one (SIf (CNot c) all BNil) else all, k2, h1 || h2)
+  end
+with cont_blocks (c : flag) (k : nat) (u : bool) (h : blocks) : blocks * nat * bool :=
+  match h with
+  | HNil => (HNil, k, false)
+  | HCons b r =>
+      let '(b', k1, h1) := cont_block c k u false b in
+      let '(r', k2, h2) := cont_blocks c k1 (u || h1) r in
+      (HCons b' r', k2, h1 || h2)
+  end.
+
+(* ---- return_statements.ConditionalReturnRewriter ---------------------------- *)
+(* returns (replacement, definitely_returns contribution of this statement to its block,
+            redirect: where the following statements of the block must be moved) *)
+Inductive redirect : Set := RNone | RIntoOrelse | RIntoBody.
+
+Fixpoint crr_stmt (st : stmt) : stmt * bool * redirect :=
+  match st with
+  | SReturn _ => (st, true, RNone)
+  | SIf c b1 b2 =>
+      let '(b1', d1) := crr_block b1 in
+      let '(b2', d2) := crr_block b2 in
+      (SIf c b1' b2', d1 && d2, if d1 then RIntoOrelse else if d2 then RIntoBody else RNone)
+  | SWhile c body orelse =>
+      let '(body', _) := crr_block body in
+      let '(orelse', _) := crr_block orelse in
+      (SWhile c body' orelse', false, RNone)
+  | SWith l body =>
+      let '(body', d) := crr_block body in (SWith l body', d, RNone)
+  | STry body hs orelse final =>
+      let '(body', _) := crr_block body in
+      let '(orelse', _) := crr_block orelse in
+      let '(final', _) := crr_block final in
+      (STry body' (crr_blocks hs) orelse' final', false, RNone)
+  | _ => (st, false, RNone)
+  end
+with crr_block (b : block) : block * bool :=
+  match b with
+  | BNil => (BNil, false)
+  | BCons st r =>
+      let '(st', d1, rd) := crr_stmt st in
+      let '(r', d2) := crr_block r in
+      (match rd, st' with
+       | RIntoOrelse, SIf c b1 b2 => one (SIf c b1 (bapp b2 r'))
+       | RIntoBody, SIf c b1 b2 => one (SIf c (bapp b1 r') b2)
+       | _, _ => BCons st' r'
+       end, d1 || d2)
+  end
+with crr_blocks (h : blocks) : blocks :=
+  match h with HNil => HNil | HCons b r => HCons (fst (crr_block b)) (crr_blocks r) end.
+
+(* ---- return_statements.ReturnStatementsTransformer -------------------------- *)
+Definition rflag : flag := 2.       (* do_return *)
+(* `try: do_return = True; retval_ = <value> / except: do_return = False; raise` *)
+Definition lowered_return (l : label) : stmt :=
+  STry (BCons (SSet rflag true) (one (SAtom l))) (HCons (BCons (SSet rflag false) (one (SRaise 0))) HNil) BNil BNil.
+
+(* used: return_used of the enclosing block so far (decides whether loop tests get `not do_return and`);
+   result (replacement, hit) where hit = a return was lowered inside (create_guard_next / return_used) *)
+Fixpoint ret_stmt (used : bool) (st : stmt) : block * bool :=
+  match st with
+  | SReturn l => (one (lowered_return l), true)
+  | SIf c b1 b2 =>
+      let '(b1', h1) := ret_block false false b1 in
+      let '(b2', h2) := ret_block false false b2 in
+      (one (SIf c b1' b2'), h1 || h2)
+  | SWhile c body orelse =>
+      let '(body', hb) := ret_block false false body in
+      let c' := if used || hb then CAndNot rflag c else c in
+      let '(orelse', ho) := ret_block false false orelse in
+      (one (SWhile c' body' orelse'), hb || ho)
+  | SWith l body =>
+      let '(body', h) := ret_block false false body in (one (SWith l body'), h)
+  | STry body hs orelse final =>
+      let '(body', h1) := ret_block false false body in
+      let '(orelse', h2) := ret_block false false orelse in
+      let orelse'' := if negb (is_nil orelse') && (used || h1) then one (SIf (CNot rflag) orelse' BNil) else orelse' in
+      let '(final', h3) := ret_block false false final in
+      let '(hs', h4) := ret_blocks hs in
+      (one (STry body' hs' orelse'' final'), h1 || h2 || h3 || h4)
+  | _ => (one st, false)
+  end
+with ret_block (cur used : bool) (b : block) : block * bool :=
+  match b with
+  | BNil => (BNil, false)
+  | BCons st r =>
+      let '(st', h1) := ret_stmt used st in
+      let '(r', h2) := ret_block h1 (used || h1) r in
+      let all := bapp st' r' in
+      (if cur then one (SIf (CNot rflag) all BNil) else all, h1 || h2)
+  end
+with ret_blocks (h : blocks) : blocks * bool :=
+  match h with
+  | HNil => (HNil, false)
+  | HCons b r =>
+      let '(b', h1) := ret_block false false b in
+      let '(r', h2) := ret_blocks r in
+      (HCons b' r', h1 || h2)
   end.
